@@ -21,6 +21,7 @@ import (
 	"runtime"
 	"sort"
 	"strconv"
+	"sync"
 	"time"
 
 	"github.com/jonboulle/clockwork"
@@ -59,6 +60,7 @@ type c36Side struct {
 	m     *c26Metrics
 	zdec  *zstd.Decoder
 	t0    int64
+	mu    sync.Mutex
 	ops   []string // Gallina ops (Enq ...), in enqueue order
 	n     int
 }
@@ -168,6 +170,10 @@ func (u *c36Up) EnqueueSpan(sp *types.Span) {
 	if v, ok := sp.Data.Get("id").(int64); ok {
 		id = uint64(v)
 	}
+	// late spans (driver goroutine) and decided traces (sendTraces goroutine) can arrive concurrently:
+	// record and enqueue atomically so that the model sees the order the transmission saw
+	u.side.mu.Lock()
+	defer u.side.mu.Unlock()
 	if err := u.side.note(sp.Event, id); err != nil && u.err == nil {
 		u.err = err
 	}
